@@ -1,6 +1,7 @@
 import SwcVerif.Props.C19
 import SwcVerif.Props.C19Gen
 import SwcVerif.Props.C19Front
+import SwcVerif.Props.C19Map
 #print axioms C19.getIdx_spec
 #print axioms C19.step_len
 #print axioms C19.load_at_most_once
@@ -34,3 +35,11 @@ import SwcVerif.Props.C19Front
 #print axioms C19.slice_indices_eq_spec
 #print axioms C19.generated_pop_slice
 #print axioms C19.generated_to_population
+#print axioms RefinePopMap.find_swcs_refines
+#print axioms RefinePopMap.lazy_iter_refines
+#print axioms RefinePopMap.pop_map_refines
+#print axioms C19.generated_find_swcs
+#print axioms C19.generated_find_swcs_order
+#print axioms C19.frontState_inv
+#print axioms C19.generated_map_results
+#print axioms C19.generated_map_load_at_most_once
